@@ -32,6 +32,7 @@ Peer(s) == IF s = "A" THEN "B" ELSE "A"
 Base == 1000                      \* normalised initial TSN
 MTU == 1200
 MaxNotes == 400
+FSE == INSTANCE FiniteSetsExt
 
 VARIABLES
   l,        \* cursor
@@ -54,6 +55,11 @@ EmptyEp(nch) ==
     nextT  |-> Base,
     rwnd   |-> 0, hasRwnd |-> FALSE,
     since  |-> 0,             \* user bytes of new DATA since the last SACK / T3 was processed
+    \* in-flight accounting (rule InFlightWithinWindow): every entry of `sq` carries `fl` - sent or retransmitted
+    \* and neither covered by a processed SACK nor taken out of flight by a T3 expiry since; `infl` is the sum
+    \* of their user bytes.  `rwndN` is the a_rwnd of the last SACK that was not overtaken (cumulative TSN not
+    \* behind `cumHi`, the highest one processed): the code keeps the newer value when a SACK was overtaken.
+    infl   |-> 0, rwndN |-> 0, cumHi |-> 0, hasCum |-> FALSE,
     st     |-> "New",
     expDel |-> <<>>,          \* deliveries the model expects the hooks to report: <<[ch, len]>>
     setupRx |-> FALSE,        \* a set-up chunk was received while Connected (until the next snap)
@@ -182,6 +188,8 @@ NewChan ==
 (* Sender side: tx events of the run loop (C13)                            *)
 OnlyControl(types) == \A k \in 1..Len(types) : types[k] \in {3, 4, 5}   \* SACK, HEARTBEAT, HEARTBEAT-ACK
 
+InFl(q) == FSE!MapThenSumSet(LAMBDA x : x.len, {x \in q : x.fl /\ ~x.acked})
+WinBound(e) == IF e.rwndN > e.rwnd THEN e.rwndN ELSE e.rwnd
 RECURSIVE TxChunks(_, _, _, _)
 \* fold the chunks of one outbound packet into (endpoint state, notes)
 TxChunks(e, b, cs, k) ==
@@ -196,21 +204,31 @@ TxChunks(e, b, cs, k) ==
                \* one lock): a first fragment only when no message is open, any other fragment only as the
                \* continuation of the open message
                contig == IF isB THEN ~e.fragOpen ELSE (e.fragOpen /\ e.fragCh = c.ch /\ e.fragSsn = c.ssn)
-               e2 == [e EXCEPT !.sq = @ \cup {[tsn |-> c.tsn, len |-> c.ulen, ch |-> c.ch, acked |-> FALSE]},
-                               !.nextT = @ + 1, !.since = @ + c.ulen,
+               e2 == [e EXCEPT !.sq = @ \cup {[tsn |-> c.tsn, len |-> c.ulen, ch |-> c.ch, acked |-> FALSE, fl |-> TRUE]},
+                               !.nextT = @ + 1, !.since = @ + c.ulen, !.infl = @ + c.ulen,
                                !.fragOpen = ~isE, !.fragCh = c.ch, !.fragSsn = c.ssn]
-               b2 == Chk(b, ~e.hasRwnd \/ e2.since <= e.rwnd + MTU, "C13", "NewDataWithinWindow",
+               b1 == Chk(b, ~e.hasRwnd \/ e2.since <= e.rwnd + MTU, "C13", "NewDataWithinWindow",
                          [tsn |-> c.tsn, since |-> e2.since, rwnd |-> e.rwnd])
+               \* the window is exhausted when what is in flight (sent or retransmitted, not acknowledged, not
+               \* taken out of flight by a T3 expiry) fills the advertised window: new data may exceed it by
+               \* one packet at most - also right after a T3 expiry, whose retransmissions are back in flight
+               \* before any new chunk of the same transmit() leaves
+               b2 == Chk(b1, ~e.hasRwnd \/ e2.infl <= WinBound(e) + MTU, "C13", "InFlightWithinWindow",
+                         [tsn |-> c.tsn, inflight |-> e2.infl, rwnd |-> WinBound(e)])
                b3 == Chk(b2, contig, "C12", "FragmentsContiguous",
                          [tsn |-> c.tsn, ch |-> c.ch, ssn |-> c.ssn, flags |-> c.f, open |-> e.fragOpen, openCh |-> e.fragCh])
            IN TxChunks(e2, b3, cs, k + 1)
     ELSE IF TsnGT(e.nextT, c.tsn)
       THEN \* retransmission: the chunk must still be unacknowledged by every SACK processed so far
            LET live == \E x \in e.sq : x.tsn = c.tsn /\ ~x.acked
-           IN TxChunks(e, Chk(b, live, "C13", "NoRtxAfterAck", [tsn |-> c.tsn]), cs, k + 1)
+               back == {x \in e.sq : x.tsn = c.tsn /\ ~x.acked /\ ~x.fl}    \* back in flight
+               e2 == IF back = {} THEN e
+                     ELSE [e EXCEPT !.sq = {IF x \in back THEN [x EXCEPT !.fl = TRUE] ELSE x : x \in @},
+                                    !.infl = @ + FSE!MapThenSumSet(LAMBDA x : x.len, back)]
+           IN TxChunks(e2, Chk(b, live, "C13", "NoRtxAfterAck", [tsn |-> c.tsn]), cs, k + 1)
     ELSE \* a TSN was skipped
-           LET e2 == [e EXCEPT !.sq = @ \cup {[tsn |-> c.tsn, len |-> c.ulen, ch |-> c.ch, acked |-> FALSE]},
-                               !.nextT = c.tsn + 1, !.since = @ + c.ulen]
+           LET e2 == [e EXCEPT !.sq = @ \cup {[tsn |-> c.tsn, len |-> c.ulen, ch |-> c.ch, acked |-> FALSE, fl |-> TRUE]},
+                               !.nextT = c.tsn + 1, !.since = @ + c.ulen, !.infl = @ + c.ulen]
            IN TxChunks(e2, Chk(b, FALSE, "C13", "ConsecutiveTsn", [tsn |-> c.tsn, expected |-> e.nextT]), cs, k + 1)
 
 Tx ==
@@ -244,8 +262,12 @@ Rx ==
            IN ep' = [ep EXCEPT ![s].rx = [r EXCEPT !.out = <<>>],
                                ![s].expDel = @ \o Without(OutToDel(r.out), e.closingCh \cup e.closedCh)]
          ELSE IF t = 3 THEN  \* SACK
-           ep' = [ep EXCEPT ![s].sq = ApplySack(@, Ev.cum, GapSetOf(Ev.cum, Ev.gaps)),
-                            ![s].rwnd = Ev.rwnd, ![s].hasRwnd = TRUE, ![s].since = 0]
+           LET q2 == ApplySack(e.sq, Ev.cum, GapSetOf(Ev.cum, Ev.gaps))
+               overtaken == e.hasCum /\ TsnGT(e.cumHi, Ev.cum)
+           IN ep' = [ep EXCEPT ![s].sq = q2, ![s].infl = InFl(q2),
+                               ![s].rwnd = Ev.rwnd, ![s].hasRwnd = TRUE, ![s].since = 0,
+                               ![s].rwndN = IF overtaken THEN @ ELSE Ev.rwnd,
+                               ![s].cumHi = IF overtaken THEN @ ELSE Ev.cum, ![s].hasCum = TRUE]
          ELSE IF t = 192 THEN  \* FORWARD-TSN: move the point, then deliver what became contiguous
            LET r == Drain(RxForward(e.rx, Ev.cum, StreamSet(Ev.streams)), OrdF)
            IN ep' = [ep EXCEPT ![s].rx = [r EXCEPT !.out = <<>>],
@@ -253,6 +275,7 @@ Rx ==
          ELSE IF t \in {1, 2} THEN  \* INIT / INIT-ACK: the peer's initial TSN and window
            ep' = [ep EXCEPT ![s].rx = IF e.rx.has THEN @ ELSE [@ EXCEPT !.cum = Ev.tsn - 1, !.has = TRUE],
                             ![s].rwnd = IF e.hasRwnd THEN @ ELSE Ev.rwnd,
+                            ![s].rwndN = IF e.hasRwnd THEN @ ELSE Ev.rwnd,
                             ![s].hasRwnd = TRUE,
                             ![s].setupRx = (e.st = "Connected")]
          ELSE IF t \in {10, 11} THEN
@@ -283,7 +306,9 @@ SackFx ==
      IN /\ bad' = Chk(bad, badRem = {} /\ badAck = {}, "C01", "AckedOnlyIfCovered",
                       [side |-> s, removed_uncovered |-> {x.tsn : x \in badRem},
                        gapacked_uncovered |-> {x.tsn : x \in badAck}])
-        /\ ep' = [ep EXCEPT ![s].sq = {IF x \in badAck THEN [x EXCEPT !.acked = TRUE] ELSE x : x \in (e.sq \ badRem)}]
+        /\ ep' = IF badRem = {} /\ badAck = {} THEN ep
+                 ELSE LET q2 == {IF x \in badAck THEN [x EXCEPT !.acked = TRUE] ELSE x : x \in (e.sq \ badRem)}
+                      IN [ep EXCEPT ![s].sq = q2, ![s].infl = InFl(q2)]
   /\ UNCHANGED <<sc, chans, subidx, app, quiet, ext>> /\ Adv
 
 \* chunks given up by abandonment (hook advfx): only chunks of partially reliable channels (or chunks the
@@ -294,7 +319,7 @@ AdvFx ==
          gone == {x \in e.sq : InSet(x.tsn, Ev.removed)}
          wrong == {x \in gone : ~x.acked /\ (x.ch = 0 \/ chans[x.ch].rel)}
      IN /\ bad' = Chk(bad, wrong = {}, "C01", "AbandonOnlyPartiallyReliable", [side |-> s, tsns |-> {x.tsn : x \in wrong}])
-        /\ ep' = [ep EXCEPT ![s].sq = e.sq \ gone]
+        /\ ep' = [ep EXCEPT ![s].sq = e.sq \ gone, ![s].infl = InFl(e.sq \ gone)]
   /\ UNCHANGED <<sc, chans, subidx, app, quiet, ext>> /\ Adv
 
 ChanHook ==
@@ -306,7 +331,10 @@ ChanHook ==
 
 T3 ==
   /\ Ev.e = "timer"
-  /\ ep' = IF Ev.what = "t3" THEN [ep EXCEPT ![Ev.s].since = 0] ELSE ep
+  \* a T3 expiry takes every outstanding chunk out of flight (they come back as they are retransmitted)
+  /\ ep' = IF Ev.what = "t3" THEN [ep EXCEPT ![Ev.s].since = 0, ![Ev.s].infl = 0,
+                                             ![Ev.s].sq = {[x EXCEPT !.fl = FALSE] : x \in @}]
+           ELSE ep
   /\ UNCHANGED <<sc, chans, subidx, app, quiet, bad, ext>> /\ Adv
 
 \* state projection logged at the end of each handler: the model's prediction is compared (EXT) and
